@@ -28,6 +28,7 @@ CONSTANTS MaxPage,          \* page ids are 2..MaxPage (0 and 1 are the header s
           SyncBeforeMeta, PublishOnError,
           Crashes,          \* subset of {"kill", "power"}
           Faults,           \* BOOLEAN: I/O failures of commit steps
+          MaxFaults,        \* how many I/O failures in one behaviour (C11: single faults, pairs)
           Damages           \* BOOLEAN: damage to one header at quiescent points
 
 PageId == 2..MaxPage
@@ -45,10 +46,11 @@ VARIABLES
     crashed,          \* a crash happened and Recover has not run yet
     quiet,            \* no data write since the last successful commit (C12: an interrupted or
                       \* failed later commit may already have recycled the older header's pages)
+    nfaults,          \* I/O failures injected so far
     unsure            \* a sync reported failure and none has succeeded since: what is durable
                       \* is unknown, so the power-loss guarantees (C02) are not claimed
 
-vars == <<cmeta, dmeta, cpg, dpg, unsynced, shFree, shPend, readers, w, acked, crashed, quiet, unsure>>
+vars == <<cmeta, dmeta, cpg, dpg, unsynced, shFree, shPend, readers, w, acked, crashed, quiet, unsure, nfaults>>
 
 None == [txid |-> 0]
 
@@ -63,7 +65,7 @@ Init ==
     /\ unsynced = <<>>
     /\ shFree = {} /\ shPend = <<>>
     /\ readers = {} /\ w = None
-    /\ acked = 0 /\ crashed = FALSE /\ quiet = TRUE /\ unsure = FALSE
+    /\ acked = 0 /\ crashed = FALSE /\ quiet = TRUE /\ unsure = FALSE /\ nfaults = 0
 
 Running == ~crashed
 
@@ -73,12 +75,12 @@ Running == ~crashed
 BeginR(i) ==
     /\ Running /\ \A r \in readers : r.id # i
     /\ readers' = readers \cup {[id |-> i, m |-> Cur]}
-    /\ UNCHANGED <<cmeta, dmeta, cpg, dpg, unsynced, shFree, shPend, w, acked, crashed, quiet, unsure>>
+    /\ UNCHANGED <<cmeta, dmeta, cpg, dpg, unsynced, shFree, shPend, w, acked, crashed, quiet, unsure, nfaults>>
 
 EndR(r) ==
     /\ Running /\ r \in readers
     /\ readers' = readers \ {r}
-    /\ UNCHANGED <<cmeta, dmeta, cpg, dpg, unsynced, shFree, shPend, w, acked, crashed, quiet, unsure>>
+    /\ UNCHANGED <<cmeta, dmeta, cpg, dpg, unsynced, shFree, shPend, w, acked, crashed, quiet, unsure, nfaults>>
 
 Snaps == {r.m.txid : r \in readers}
 
@@ -90,7 +92,7 @@ BeginW ==
     /\ w' = [txid |-> Cur.txid + 1, base |-> ChooseSlot(cmeta), pages |-> Cur.pages, fl |-> Cur.fl,
              np |-> Cur.np, free |-> shFree, pend |-> shPend, towrite |-> {}, edits |-> 0,
              phase |-> "release", meta |-> Bad]
-    /\ UNCHANGED <<cmeta, dmeta, cpg, dpg, unsynced, shFree, shPend, readers, acked, crashed, quiet, unsure>>
+    /\ UNCHANGED <<cmeta, dmeta, cpg, dpg, unsynced, shFree, shPend, readers, acked, crashed, quiet, unsure, nfaults>>
 
 Release(b) ==
     /\ Running /\ w # None /\ w.phase = "release"
@@ -100,7 +102,7 @@ Release(b) ==
        IN /\ MustReleaseOK(pend2, w.txid, Snaps)
           /\ w' = [w EXCEPT !.free = @ \cup UNION {w.pend[t] : t \in rel}, !.pend = pend2,
                             !.phase = "open"]
-    /\ UNCHANGED <<cmeta, dmeta, cpg, dpg, unsynced, shFree, shPend, readers, acked, crashed, quiet, unsure>>
+    /\ UNCHANGED <<cmeta, dmeta, cpg, dpg, unsynced, shFree, shPend, readers, acked, crashed, quiet, unsure, nfaults>>
 
 \* TxFreelist::free of a page of the transaction's current tree
 FreeP(p) ==
@@ -109,7 +111,7 @@ FreeP(p) ==
     /\ w' = [w EXCEPT !.pages = [q \in DOMAIN w.pages \ {p} |-> w.pages[q]],
                       !.pend = AddPend(w.pend, w.txid, {p}), !.edits = @ + 1,
                       !.towrite = @ \ {p}]
-    /\ UNCHANGED <<cmeta, dmeta, cpg, dpg, unsynced, shFree, shPend, readers, acked, crashed, quiet, unsure>>
+    /\ UNCHANGED <<cmeta, dmeta, cpg, dpg, unsynced, shFree, shPend, readers, acked, crashed, quiet, unsure, nfaults>>
 
 \* TxFreelist::allocate: any free page, or extend the file only when none is free
 AllocChoices(free, np) == {id \in PageId : AllocOK(id, 1, free, np)}
@@ -120,7 +122,7 @@ AllocP(id) ==
     /\ w' = [w EXCEPT !.pages = (id :> w.txid) @@ w.pages, !.free = @ \ {id},
                       !.np = IF id = w.np THEN w.np + 1 ELSE w.np,
                       !.towrite = @ \cup {id}, !.edits = @ + 1]
-    /\ UNCHANGED <<cmeta, dmeta, cpg, dpg, unsynced, shFree, shPend, readers, acked, crashed, quiet, unsure>>
+    /\ UNCHANGED <<cmeta, dmeta, cpg, dpg, unsynced, shFree, shPend, readers, acked, crashed, quiet, unsure, nfaults>>
 
 \* write_data, first block: free the old free-list page, allocate and fill the new one
 CommitFL(id) ==
@@ -135,7 +137,7 @@ CommitFL(id) ==
                                !.towrite = @ \cup {id}, !.phase = "data",
                                !.meta = [txid |-> w.txid, pages |-> pages2, fl |-> id,
                                          flist |-> free2 \cup UnionAll(pend1), np |-> np2]]
-    /\ UNCHANGED <<cmeta, dmeta, cpg, dpg, unsynced, shFree, shPend, readers, acked, crashed, quiet, unsure>>
+    /\ UNCHANGED <<cmeta, dmeta, cpg, dpg, unsynced, shFree, shPend, readers, acked, crashed, quiet, unsure, nfaults>>
 
 WriteData(p) ==
     /\ Running /\ w # None /\ w.phase = "data" /\ p \in w.towrite
@@ -143,12 +145,12 @@ WriteData(p) ==
     /\ unsynced' = Append(unsynced, [k |-> "pg", p |-> p, v |-> w.txid])
     /\ w' = [w EXCEPT !.towrite = @ \ {p}]
     /\ quiet' = FALSE
-    /\ UNCHANGED <<cmeta, dmeta, dpg, shFree, shPend, readers, acked, crashed, unsure>>
+    /\ UNCHANGED <<cmeta, dmeta, dpg, shFree, shPend, readers, acked, crashed, unsure, nfaults>>
 
 DataDone ==
     /\ Running /\ w # None /\ w.phase = "data" /\ w.towrite = {}
     /\ w' = [w EXCEPT !.phase = IF SyncBeforeMeta THEN "sync1" ELSE "meta"]
-    /\ UNCHANGED <<cmeta, dmeta, cpg, dpg, unsynced, shFree, shPend, readers, acked, crashed, quiet, unsure>>
+    /\ UNCHANGED <<cmeta, dmeta, cpg, dpg, unsynced, shFree, shPend, readers, acked, crashed, quiet, unsure, nfaults>>
 
 SyncNow == dpg' = cpg /\ dmeta' = cmeta /\ unsynced' = <<>> /\ unsure' = FALSE
 
@@ -156,7 +158,7 @@ SyncData ==
     /\ Running /\ w # None /\ w.phase = "sync1"
     /\ SyncNow
     /\ w' = [w EXCEPT !.phase = "meta"]
-    /\ UNCHANGED <<cmeta, cpg, shFree, shPend, readers, acked, crashed, quiet>>
+    /\ UNCHANGED <<cmeta, cpg, shFree, shPend, readers, acked, crashed, quiet, nfaults>>
 
 \* the header goes to the slot the transaction did not start from
 WriteMeta ==
@@ -165,13 +167,13 @@ WriteMeta ==
        /\ cmeta' = [cmeta EXCEPT ![s] = w.meta]
        /\ unsynced' = Append(unsynced, [k |-> "meta", s |-> s, m |-> w.meta])
     /\ w' = [w EXCEPT !.phase = "sync2"]
-    /\ UNCHANGED <<dmeta, cpg, dpg, shFree, shPend, readers, acked, crashed, quiet, unsure>>
+    /\ UNCHANGED <<dmeta, cpg, dpg, shFree, shPend, readers, acked, crashed, quiet, unsure, nfaults>>
 
 SyncMeta ==
     /\ Running /\ w # None /\ w.phase = "sync2"
     /\ SyncNow
     /\ w' = [w EXCEPT !.phase = "publish"]
-    /\ UNCHANGED <<cmeta, cpg, shFree, shPend, readers, acked, crashed, quiet>>
+    /\ UNCHANGED <<cmeta, cpg, shFree, shPend, readers, acked, crashed, quiet, nfaults>>
 
 \* *db.freelist = tx freelist; commit returns Ok; the transaction is dropped
 Publish ==
@@ -180,20 +182,20 @@ Publish ==
     /\ acked' = w.txid
     /\ w' = None
     /\ quiet' = TRUE
-    /\ UNCHANGED <<cmeta, dmeta, cpg, dpg, unsynced, readers, crashed, unsure>>
+    /\ UNCHANGED <<cmeta, dmeta, cpg, dpg, unsynced, readers, crashed, unsure, nfaults>>
 
 \* dropping a write transaction without commit: nothing shared changes (C06)
 Rollback ==
     /\ Running /\ w # None /\ w.phase \in {"release", "open"}
     /\ w' = None
-    /\ UNCHANGED <<cmeta, dmeta, cpg, dpg, unsynced, shFree, shPend, readers, acked, crashed, quiet, unsure>>
+    /\ UNCHANGED <<cmeta, dmeta, cpg, dpg, unsynced, shFree, shPend, readers, acked, crashed, quiet, unsure, nfaults>>
 
 (***************************************************************************)
 (* I/O faults during commit (C11): the failing call has no effect or a      *)
 (* torn effect; commit returns Err and the transaction is dropped.          *)
 (***************************************************************************)
 FailDataWrite(p, torn) ==
-    /\ Faults /\ Running /\ w # None /\ w.phase = "data" /\ p \in w.towrite
+    /\ Faults /\ nfaults < MaxFaults /\ nfaults' = nfaults + 1 /\ Running /\ w # None /\ w.phase = "data" /\ p \in w.towrite
     /\ IF torn
        THEN /\ cpg' = [cpg EXCEPT ![p] = Garbage]
             /\ unsynced' = Append(unsynced, [k |-> "pg", p |-> p, v |-> Garbage])
@@ -202,12 +204,12 @@ FailDataWrite(p, torn) ==
     /\ UNCHANGED <<cmeta, dmeta, dpg, shFree, shPend, readers, acked, crashed, unsure>>
 
 FailSyncData ==
-    /\ Faults /\ Running /\ w # None /\ w.phase = "sync1"
+    /\ Faults /\ nfaults < MaxFaults /\ nfaults' = nfaults + 1 /\ Running /\ w # None /\ w.phase = "sync1"
     /\ w' = None /\ unsure' = TRUE
     /\ UNCHANGED <<cmeta, dmeta, cpg, dpg, unsynced, shFree, shPend, readers, acked, crashed, quiet>>
 
 FailMetaWrite(torn) ==
-    /\ Faults /\ Running /\ w # None /\ w.phase = "meta"
+    /\ Faults /\ nfaults < MaxFaults /\ nfaults' = nfaults + 1 /\ Running /\ w # None /\ w.phase = "meta"
     /\ IF torn
        THEN /\ cmeta' = [cmeta EXCEPT ![1 - w.base] = Bad]
             /\ unsynced' = Append(unsynced, [k |-> "meta", s |-> 1 - w.base, m |-> Bad])
@@ -218,7 +220,7 @@ FailMetaWrite(torn) ==
 \* the final sync fails after the header reached the page cache: the header is what every
 \* later transaction of this process reads
 FailSyncMeta ==
-    /\ Faults /\ Running /\ w # None /\ w.phase = "sync2"
+    /\ Faults /\ nfaults < MaxFaults /\ nfaults' = nfaults + 1 /\ Running /\ w # None /\ w.phase = "sync2"
     /\ IF PublishOnError THEN shFree' = w.free /\ shPend' = w.pend
        ELSE UNCHANGED <<shFree, shPend>>
     /\ w' = None /\ unsure' = TRUE
@@ -245,7 +247,7 @@ Kill ==
     /\ "kill" \in Crashes /\ Running
     /\ dpg' = cpg /\ dmeta' = cmeta /\ unsynced' = <<>>
     /\ LoseMemory
-    /\ UNCHANGED <<cmeta, cpg, acked, quiet, unsure>>
+    /\ UNCHANGED <<cmeta, cpg, acked, quiet, unsure, nfaults>>
 
 \* power is lost: any subset of the unsynced writes reached the disk, any of them torn
 PowerLoss ==
@@ -255,7 +257,7 @@ PowerLoss ==
           /\ dpg' = r.pg /\ dmeta' = r.ms /\ cpg' = r.pg /\ cmeta' = r.ms
     /\ unsynced' = <<>>
     /\ LoseMemory
-    /\ UNCHANGED <<acked, quiet, unsure>>
+    /\ UNCHANGED <<acked, quiet, unsure, nfaults>>
 
 \* DBInner::open: choose the header, load the free-list page as "all free"
 Recover ==
@@ -263,14 +265,14 @@ Recover ==
     /\ shFree' = Cur.flist /\ shPend' = <<>>
     /\ crashed' = FALSE
     /\ acked' = Cur.txid
-    /\ UNCHANGED <<cmeta, dmeta, cpg, dpg, unsynced, readers, w, unsure, quiet>>
+    /\ UNCHANGED <<cmeta, dmeta, cpg, dpg, unsynced, readers, w, unsure, quiet, nfaults>>
 
 \* close and reopen without a crash
 Reopen ==
     /\ Running /\ w = None /\ readers = {}
     /\ dpg' = cpg /\ dmeta' = cmeta /\ unsynced' = <<>>
     /\ shFree' = Cur.flist /\ shPend' = <<>>
-    /\ UNCHANGED <<cmeta, cpg, readers, w, acked, crashed, unsure, quiet>>
+    /\ UNCHANGED <<cmeta, cpg, readers, w, acked, crashed, unsure, quiet, nfaults>>
 
 \* damage to one header page while the process is down, at a quiescent point (C12)
 Damage(s) ==
@@ -279,7 +281,7 @@ Damage(s) ==
     /\ cmeta' = [cmeta EXCEPT ![s] = Bad] /\ dmeta' = [dmeta EXCEPT ![s] = Bad]
     /\ LoseMemory
     /\ acked' = cmeta[1 - s].txid      \* what must be recovered now: the other header's commit
-    /\ UNCHANGED <<cpg, dpg, unsynced, quiet, unsure>>
+    /\ UNCHANGED <<cpg, dpg, unsynced, quiet, unsure, nfaults>>
 
 Next ==
     \/ \E i \in 1..MaxReaders : BeginR(i)
